@@ -3,6 +3,7 @@ import NA.Model.CryptoMapDev
 import NA.Proofs.VpnGraphFinal
 import NA.Proofs.VpnGraphRefs
 import NA.Proofs.VpnGraphStable
+import NA.Model.VpnGraphCertDev
 /-!
 Driver `nadrv-c10`: the crypto map models of `NA.Vpn` on one case per line.
 
@@ -93,7 +94,7 @@ sections by \x04 (`head \x05 mode \x05 subs`), sub-commands by \x06 (`key \x07 o
 
 def parseKind (s : String) : G.Kind :=
   if s == "acl" then .acl else if s == "gp" then .gp else if s == "pool" then .pool
-  else if s == "tg" then .tg else if s == "user" then .user else .aaa
+  else if s == "tg" then .tg else if s == "user" then .user else if s == "certmap" then .certmap else .aaa
 
 def parseGSub (s : String) : G.Sub :=
   match s.splitOn "\x07" with
@@ -139,10 +140,41 @@ def runGraph (fs : List String) : String :=
     "ok\t" ++ "|".intercalate (st.out.map G.Chg.render) ++ "\t" ++ tail.replace "\t" (hyp ++ "\t")
   | none => "abort"
 
+/-! ### op H: fragment G plus certificate maps and their bindings — rules separated by \x01, fields `cm \x02 seq \x02 tg`
+(`cm` empty = default-group); `wa` / `wb` = `-` if there is no toplevel webvpn -/
+
+def parseRule (s : String) : G.Rule :=
+  match s.splitOn "\x02" with
+  | [cm, seq, tg] => { cm := if cm.isEmpty then none else some cm, seq := seq, tg := tg }
+  | _ => { tg := "?" }
+
+def parseWeb (s : String) : Option (List G.Rule) := if s == "-" then none else some ((splitNE s "\x01").map parseRule)
+
+def runCert (fs : List String) : String :=
+  let a : G.Cfg := { objs := (splitNE (field fs "a") "\x01").map parseGObj, tgmap := (splitNE (field fs "ta") "\x01").map parseRule,
+                     web := parseWeb (field fs "wa") }
+  let b : G.Cfg := { objs := (splitNE (field fs "b") "\x01").map parseGObj, tgmap := (splitNE (field fs "tb") "\x01").map parseRule,
+                     web := parseWeb (field fs "wb") }
+  match G.runH a b with
+  | some h =>
+    if h.outside then "outside" else
+    let cs := G.mergeOut h.out h.extra
+    let tail := match G.execAllH (G.HDev.ofCfg a) cs with
+      | some x =>
+        "acc" ++ (if G.viewH x.cfg == G.viewH b then "+conv" else "") ++
+          (if G.frame a.objs x.d.objs == G.frame a.objs a.objs then "+frame" else "") ++ "\t" ++
+          (match G.scriptH x.cfg b with
+           | some ls => "|".intercalate ls
+           | none => "abort")
+      | none => "rej\t"
+    "ok\t" ++ "|".intercalate (cs.map G.Cmd2.render) ++ "\t" ++ tail
+  | none => "abort"
+
 def answer (line : String) : String :=
   match line.splitOn "\t" with
   | "E" :: fs => runEngine fs
   | "G" :: fs => runGraph fs
+  | "H" :: fs => runCert fs
   | ["M", a, b] => runMatch a b
   | _ => "bad-input"
 
